@@ -54,6 +54,7 @@ type Model struct {
 	sccOf      map[string]int // type#relation -> index in order
 	Stratified bool
 	tuplesets  map[string]bool // type#relation used as a tupleset
+	frozen     bool            // set once NewModel is done: no method writes to the model afterwards
 }
 
 // RelKey renders type#relation.
@@ -69,6 +70,7 @@ func NewModel(p *openfgav1.AuthorizationModel, ce CondEval) *Model {
 		m.Types[td.GetType()] = td
 	}
 	m.stratify()
+	m.frozen = true
 	return m
 }
 
@@ -276,7 +278,9 @@ func (m *Model) deps(typ string, us *openfgav1.Userset, neg bool, out *[]depEdge
 	case *openfgav1.Userset_TupleToUserset:
 		ts := u.TupleToUserset.GetTupleset().GetRelation()
 		cr := u.TupleToUserset.GetComputedUserset().GetRelation()
-		m.tuplesets[RelKey(typ, ts)] = true
+		if !m.frozen { // filled while NewModel stratifies; read-only afterwards (models are shared by goroutines)
+			m.tuplesets[RelKey(typ, ts)] = true
+		}
 		for _, rr := range m.Restrictions(typ, ts) {
 			if rr.GetRelation() == "" && rr.GetWildcard() == nil {
 				if m.Rewrite(rr.GetType(), cr) != nil {
